@@ -264,6 +264,14 @@ def generate(rng, tier):
                 op["shift"] = op["shift"][0]      # scalar shift form
             elif c < 0.16:
                 op["shift"] = None                 # default argument
+            if rng.random() < 0.12:
+                # the same numbers in another legal container / numpy scalar type
+                op["forms"] = {"Q": rng.choice(["plain", "np64", "np64", "list", "nparr"]),
+                               "out": rng.choice(["plain", "npint", "npint", "list"]),
+                               "shift": rng.choice(["plain", "npscalars", "list", "nparr"])}
+            if rng.random() < 0.12:
+                # the same samples behind another memory layout
+                op["view"] = rng.choice(["fortran", "negstride", "readonly", "strided"])
         elif kind in ("ffs", "ufs"):
             g = rng.choice(pool)
             m = g["in"][0]
@@ -615,6 +623,19 @@ def _judged(np, ft, pr, op, arrays, prec, step, history, violations, probes, bum
     import warnings
     k = op["op"]
     a = arrays[op["arr"]].copy()
+    view = op.get("view")
+    if view == "fortran":
+        a = np.asfortranarray(a)
+    elif view == "negstride":
+        a = a[::-1, ::-1].copy()[::-1, ::-1]
+    elif view == "readonly":
+        a.setflags(write=False)
+    elif view == "strided":
+        big = np.zeros((a.shape[0] * 2, a.shape[1] * 3), dtype=a.dtype)
+        big[::2, ::3] = a
+        a = big[::2, ::3]
+    if view:
+        bump(probes, f"input_view_{view}")
     m, n = a.shape
     Q, out, shift, fwd = _geometry(op, (m, n))
     route = _route(op)
@@ -658,6 +679,7 @@ def _judged(np, ft, pr, op, arrays, prec, step, history, violations, probes, bum
 
     raised = None
     res = None
+    lenient = False
     with warnings.catch_warnings():
         warnings.simplefilter("ignore")
         try:
@@ -667,7 +689,12 @@ def _judged(np, ft, pr, op, arrays, prec, step, history, violations, probes, bum
                 kw = {}
                 if op["shift"] is not None:
                     kw["shift"] = tup(op["shift"])
-                res = fn(a, tup(op["Q"]), tup(op["out"]), **kw)
+                qa, oa = tup(op["Q"]), tup(op["out"])
+                forms = op.get("forms")
+                if forms:
+                    qa, oa, kw, lenient = _apply_forms(np, forms, qa, oa, kw)
+                    bump(probes, "argument_forms")
+                res = fn(a, qa, oa, **kw)
             elif k in ("ffs", "ufs"):
                 if op["wf"]:
                     w = pr.Wavefront(a, op["wvl"], op["dx"], space="pupil" if k == "ffs" else "psf")
@@ -690,7 +717,7 @@ def _judged(np, ft, pr, op, arrays, prec, step, history, violations, probes, bum
     feat = None
     if raised is not None:
         r = {"out": "raised:" + type(raised).__name__}
-        if not is_int:
+        if not is_int and not lenient:
             # every call generated here is inside the property's quantifier: a
             # call that raises has returned no answer at all.  (Integer-typed
             # input may be rejected cleanly; wrong numbers may not be returned.)
@@ -725,10 +752,44 @@ def _judged(np, ft, pr, op, arrays, prec, step, history, violations, probes, bum
                            "tol": tol * scale, "relerr": err / scale, "prec": prec,
                            "feat": _features_from(m, n, Q, out, shift, a, np)})
     # signature for the history check: everything the answer may depend on
-    sig = core.digest([k, {kk: vv for kk, vv in op.items() if kk != "op"}, prec])
+    sig = core.digest([k, {kk: vv for kk, vv in op.items() if kk not in ("op", "forms", "view")}, prec])
     cmp = np.abs(res) if shifted else res
     history.append((sig, cmp, tol, scale, step))
     return r
+
+
+def _apply_forms(np, forms, qa, oa, kw):
+    """Re-express the same argument values in other container / scalar types.
+    Plain python numbers and tuples, numpy float64 scalars for Q and numpy
+    integers for the sample counts are always accepted today; lists and arrays
+    may be rejected cleanly (lenient) but, if accepted, must give the right answer."""
+    lenient = False
+    f = forms.get("Q")
+    if f == "np64":
+        qa = tuple(np.float64(q) for q in qa) if isinstance(qa, tuple) else np.float64(qa)
+    elif f in ("list", "nparr"):
+        q2 = list(qa) if isinstance(qa, tuple) else [qa, qa]
+        qa = q2 if f == "list" else np.array(q2, dtype=np.float64)
+        lenient = True
+    f = forms.get("out")
+    if f == "npint":
+        oa = tuple(np.int64(o) for o in oa) if isinstance(oa, tuple) else np.int64(oa)
+    elif f == "list":
+        oa = list(oa) if isinstance(oa, tuple) else [oa, oa]
+        lenient = True
+    f = forms.get("shift")
+    if "shift" in kw and f and f != "plain":
+        sh = kw["shift"]
+        sh = list(sh) if isinstance(sh, tuple) else [sh, sh]
+        if f == "npscalars":
+            kw["shift"] = tuple(np.float64(x) for x in sh)
+        elif f == "list":
+            kw["shift"] = sh
+            lenient = True
+        else:
+            kw["shift"] = np.array(sh, dtype=np.float64)
+            lenient = True
+    return qa, oa, kw, lenient
 
 
 def _features_from(m, n, Q, out, shift, a, np):
